@@ -8,12 +8,12 @@ from tools.props import c04
 ID = 'C07'
 TARGETS = ['MindsVerif.Props.C07']
 THEOREMS = ['MindsVerif.Props.C07.' + n for n in (
-    'C07_std', 'C07_structure', 'C07_tostring_partial', 'C07_witness_mysql', 'C07_witness_mysql_value',
-    'C07_witness_tostring', 'C07_mysql_partial_example')]
+    'C07_std', 'C07_mysql', 'C07_structure', 'C07_tostring_partial', 'C07_witness_mysql', 'C07_witness_mysql_value',
+    'C07_witness_tostring')]
 ASSUME = [
-    'standard-SQL string literal rules (Render.stdLex: only the doubled quote is special) — validated in this run against sqlite3 '
+    'standard-SQL string literal rules (LitRender.stdLex: only the doubled quote is special) — validated in this run against sqlite3 '
     '(SELECT <literal> returns the value); PostgreSQL (standard_conforming_strings), MSSQL, Oracle are assumed to follow the same rules',
-    'MySQL string literal rules with backslash escapes (Render.mysqlLex) are taken from the MySQL manual; no engine offline',
+    'MySQL string literal rules with backslash escapes (LitRender.mysqlLex, default sql_mode, NO_BACKSLASH_ESCAPES off) are taken from the MySQL manual; no engine offline',
     'renderLiteral transcribes the LiteralCompiler override; tie = correspondence with SqlalchemyRender.get_string for 6 dialect names x 5 positions',
     'non-string constants (int, float, bool, NULL, dates) are delegated to SQLAlchemy / str(): covered by the probe only',
 ]
@@ -236,7 +236,10 @@ def run(chk):
     # model lines
     lines, metas = [], []
     for v in values:
-        lines.append('render - ' + enc(v)); metas.append(('render', v))
+        lines.append('render - ' + enc(v)); metas.append(('render', (False, v)))
+        lines.append('render mysql ' + enc(v)); metas.append(('render', (True, v)))
+        mlit = "'" + v.replace("'", "''").replace('\\', '\\\\') + "'"
+        lines.append('mysqllex - ' + enc(mlit + ' x')); metas.append(('mysqllex', mlit + ' x'))
         lit = "'" + v.replace("'", "''") + "'"
         lines.append('stdlex - ' + enc(lit + ' x')); metas.append(('stdlex', lit + ' x'))
         lines.append('mysqllex - ' + enc(lit + ' x')); metas.append(('mysqllex', lit + ' x'))
@@ -285,8 +288,8 @@ def run(chk):
                     record(f)
                 if outs is not None and lit is not None:
                     corr['render'][0] += 1
-                    if lit != model_lit[v]:
-                        diverge('render', dict(dialect=d, position=pos, value=v, model=model_lit[v], impl=lit))
+                    if lit != model_lit[(d == 'mysql', v)]:
+                        diverge('render', dict(dialect=d, position=pos, value=v, model=model_lit[(d == 'mysql', v)], impl=lit))
         for pos in POSITIONS:
             f = probe_sqlite_engine(conn, pos, v)
             bump('engine/sqlite/%s' % ('fail' if f else 'ok'))
